@@ -178,7 +178,7 @@ impl Encoder for TTYEncoder {
                     )?;
                 }
                 for (flag, on, off) in [
-                    (face_modify.bold, b"1", b"21"),
+                    (face_modify.bold, b"1", b"22"),
                     (face_modify.italic, b"3", b"23"),
                     (face_modify.blink, b"5", b"25"),
                     (face_modify.strike, b"9", b"29"),
